@@ -552,6 +552,16 @@ def _c16_chunk(cases):
 
 def oracle_C16(tier):
     cases, nex = c08_inputs(tier, prop='C16')
+    # names that are re-classified by the parser when their padding is lost
+    try:
+        from TexSoup.tokens import MATH_ENV_NAMES, SKIP_ENV_NAMES
+        for nm in list(SKIP_ENV_NAMES) + list(MATH_ENV_NAMES)[:6] + ['a']:
+            for pad in (' ', '\n', '  '):
+                for body in ('\\foo{a}', '\\item one', 'x $y$', '{', 'a % c\n b'):
+                    cases.append('\\begin{%s%s}%s\\end{%s}' % (nm, pad, body, nm))
+                    cases.append('\\begin{%s%s}%s\\end{%s%s}' % (pad, nm, body, nm, pad))
+    except Exception:      # noqa
+        pass
     res = Result('oracle-C16')
     for r in pmap(_c16_chunk, chunked(cases, NPROC * 4)):
         res.merge(r)
@@ -726,6 +736,12 @@ def _c13_pos_chunk(cases):
                     r.fail(Failure('C13', 'line-column', src, list(soup.char_pos_to_line(i)),
                                    list(clo_expected(src, i)), opts={'offset': i}))
                     break
+        if not sig_args_braced(soup):
+            # a bare-token argument is stored as a plain str without position:
+            # outside the property's grammar (arguments are groups); search_regex
+            # raises AttributeError there - recorded as an observation in DESIGN.md
+            r.count('skipped:search_regex-on-bare-token-argument')
+            continue
         for pat in REGEX_FAMILY:
             try:
                 ms = list(soup.search_regex(pat))
@@ -757,6 +773,11 @@ def oracle_C13(tier):
     docs = [s for s, _ in inputs.grammar_docs('C13', n, depth)]
     docs += [s for s, _ in inputs.grammar_docs('C13', n // 2, depth, spaced=True, salt='sp')]
     docs += inputs.repo_samples()
+    # nodes that only hang off argument lists: bare command / bare token arguments
+    docs += ['\\def\\foo{bar} and \\textbf\\foo', 'x \\section\\bar{y} \\label\\baz',
+             'a \\textbf b \\def\\x\\y z', '\\begin{a}\\textbf\\q\\end{a}',
+             'pre\n\\begin{verbatim}\n  raw \\stuff{ %\n\\end{verbatim}\npost',
+             'x\\begin{lstlisting}a b\\end{lstlisting}\n\\begin{zz}q\\end{zz}']
     for r in pmap(_c13_pos_chunk, chunked(docs, NPROC * 2)):
         res.merge(r)
     return res
